@@ -3,6 +3,7 @@
    Print Assumptions.  GENERATED skeleton (tools/mkprops.py), statements are the ones Coq prints for the lemmas. *)
 From Coq Require Import ZArith List Bool String Reals.
 From VQ Require Import Num Model.Vec Model.Core Proofs.CoreEMA Proofs.CoreMask Glue.CoreGlue Glue.Pin_p_mask.
+From VQ Require Import Model.Einops Glue.EinopsGlue.
 Import ListNotations.
 Open Scope R_scope.
 
@@ -133,3 +134,23 @@ Theorem C09_tie_mask_dataflow :
   p_mask.p_mask = pinned_p_mask.
 Proof. exact (@pin_p_mask). Qed.
 Print Assumptions C09_tie_mask_dataflow.
+
+(* implicit *)
+Theorem C09_src_mask_replication :
+  forall A : Type,
+       exists p : pattern,
+         role_pattern pr_vq.pr_vq "VectorQuantize.forward:loss_mask" "repeat" 0 = @Some pattern p /\
+         wf_repeat p = true /\
+         (forall (e : env) (M : nat -> nat -> A) (c bh n : nat),
+          (0 < e "h")%nat ->
+          (c < e "c")%nat ->
+          (bh < e "b" * e "h")%nat ->
+          (n < e "n")%nat -> @rearr A p e (@of2 A M) [c; bh; n] = M (bh / e "h")%nat n).
+Proof. exact (@EinopsGlue.einops_mask_repeat). Qed.
+Print Assumptions C09_src_mask_replication.
+
+Theorem C09_src_mask_replication_both_sites :
+  find_role pr_vq.pr_vq "VectorQuantize.forward:loss_mask" "repeat" 0 =
+       find_role pr_vq.pr_vq "VectorQuantize.forward:loss_mask" "repeat" 1.
+Proof. exact (@EinopsGlue.einops_mask_repeat_same). Qed.
+Print Assumptions C09_src_mask_replication_both_sites.
